@@ -49,8 +49,10 @@ def utype(u):
     k = u[0]
     if k == "col":
         return COLS[u[1]]
-    if k == "li":
+    if k in ("li", "pi"):
         return "int"
+    if k == "ps":
+        return "str"
     if k == "ln":
         return "num"
     if k == "ls":
@@ -92,7 +94,7 @@ def utype(u):
 
 def children(u):
     k = u[0]
-    if k in ("col", "li", "ln", "ls", "lb", "null", "true", "false"):
+    if k in ("col", "li", "ln", "ls", "lb", "null", "true", "false", "pi", "ps"):
         return []
     if k in BINOPS:
         return [u[1], u[2]]
@@ -206,6 +208,8 @@ def to_sa(u, neutral=None):
         return to_sa(c, neutral)
 
     def opd(pos):
+        if u[pos][0] in ("pi", "ps"):
+            return u[pos][1]  # a plain Python value: coerced by the operator implementation
         e = to_sa(u[pos], neutral)
         if neutral is not None:
             e = neutral.operand(k, pos, u[pos], e, u)
@@ -397,8 +401,10 @@ def ref_sql(u):
     r = ref_sql
     if k == "col":
         return u[1]
-    if k == "li":
+    if k in ("li", "pi"):
         return sql_val(int(u[1]))
+    if k == "ps":
+        return sql_str(u[1])
     if k == "ln":
         return u[1] if not u[1].startswith("-") else "(%s)" % u[1]
     if k == "ls":
@@ -508,6 +514,10 @@ def wire(u):
         return ["col", u[1], COLS[u[1]]]
     if k == "li":
         return ["li", str(int(u[1]))]
+    if k == "pi":
+        return ["pi", str(int(u[1]))]
+    if k == "ps":
+        return ["ps", enc_str(u[1])]
     if k == "ln":
         return ["ln", enc_str(u[1])]
     if k == "ls":
@@ -716,7 +726,7 @@ def sa_str_typed(u):
     k = u[0]
     if k == "col":
         return COLS[u[1]] == "str"
-    if k == "ls":
+    if k in ("ls", "ps"):
         return True
     if k == "add":
         return sa_str_typed(u[1]) and sa_str_typed(u[2])
@@ -780,7 +790,15 @@ class TreeGen:
             k = self.pick([(10, "add"), (10, "sub"), (10, "mul"), (6, "floordiv"), (6, "mod"), (7, "neg"),
                            (3, "case"), (3, "cast"), (2, "coalesce"), (2, "subq")])
             if k in ("add", "sub", "mul", "floordiv", "mod"):
-                return [k, self.expr("int", d), self.expr("int", d)]
+                a, b = self.expr("int", d), self.expr("int", d)
+                x = r.random()
+                if x < 0.12:
+                    b = ["pi", r.choice(INT_LITS)]     # col <op> 5
+                elif x < 0.24 and a[0] not in ("li",):
+                    a, b = ["pi", r.choice(INT_LITS)], a  # 5 <op> col  (reflected operator)
+                if a[0] == "pi" and b[0] in ("li", "pi"):
+                    b = ["col", "ia"]
+                return [k, a, b]
             if k == "neg":
                 return ["neg", self.expr("int", d)]
             if k == "cast":
@@ -812,6 +830,11 @@ class TreeGen:
             if k == "add":
                 a, b = self.expr("str", d), self.expr("str", d)
                 if sa_str_typed(a) and sa_str_typed(b):
+                    x = r.random()
+                    if x < 0.15:
+                        b = ["ps", r.choice(STR_LITS)]
+                    elif x < 0.3 and b[0] != "ls":
+                        a = ["ps", r.choice(STR_LITS)]   # 'x' + col  (__radd__)
                     return ["add", a, b]
                 return ["concat", a, b]
             if k == "cast":
@@ -828,7 +851,13 @@ class TreeGen:
             if k == "cmp":
                 kind = self.pick([(6, "numeric"), (3, "str"), (3, "bool")])
                 if kind == "numeric":
-                    return [r.choice(CMP), self.numeric(d), self.numeric(d)]
+                    a, b = self.numeric(d), self.numeric(d)
+                    x = r.random()
+                    if x < 0.1:
+                        b = ["pi", r.choice(INT_LITS)]
+                    elif x < 0.2 and b[0] not in ("li", "ln"):
+                        a = ["pi", r.choice(INT_LITS)]    # 5 < col  ->  col > 5
+                    return [r.choice(CMP), a, b]
                 if kind == "str":
                     return [r.choice(CMP), self.expr("str", d), self.expr("str", d)]
                 op = r.choice(CMP) if r.random() < self.exotic * 4 else r.choice(["eq", "ne"])
